@@ -309,6 +309,41 @@ func (tb *TB) buildSystem(facts []Atom, at *ssa.BasicBlock, before ssa.Instructi
 					s.le(sym, ds, dc)
 					s.le(sym, ss, sc)
 					s.copies = append(s.copies, copyRel{n: sym, dst: ds, dstOff: dc, src: ss, srcOff: sc})
+				case "invoke (crypto/cipher.AEAD).Seal", "invoke (crypto/cipher.AEAD).Open":
+					// the only AEAD of the module is ChaCha20-Poly1305 (16-byte tag):
+					// len(Seal(dst, n, pt, ad)) == len(dst) + len(pt) + 16; a successful
+					// Open returns len(dst) + len(ct) - 16 bytes, a failed one nil
+					if len(c.Call.Args) == 4 {
+						res := "len(" + sym + ")"
+						if name == "invoke (crypto/cipher.AEAD).Open" {
+							res = "len(" + sym + ".0)"
+						}
+						ds, dc, _ := tb.lenSym(c.Call.Args[0])
+						ps, pc, _ := tb.lenSym(c.Call.Args[2])
+						s.le("0", res, 0)
+						e := symLin(res).addScaled(symLin(ds), -1).addScaled(symLin(ps), -1)
+						e.k -= dc + pc
+						tag := int64(16)
+						if name == "invoke (crypto/cipher.AEAD).Seal" {
+							e.k -= tag
+							s.eqs = append(s.eqs, e)
+							if ds == "0" {
+								s.le(res, ps, dc+pc+tag)
+								s.le(ps, res, -(dc + pc + tag))
+							} else if ps == "0" {
+								s.le(res, ds, dc+pc+tag)
+								s.le(ds, res, -(dc + pc + tag))
+							}
+						} else {
+							e.k += tag
+							s.ineqs = append(s.ineqs, e) // <= (nil on failure)
+							if ds == "0" {
+								s.le(res, ps, dc+pc-tag)
+							} else if ps == "0" {
+								s.le(res, ds, dc+pc-tag)
+							}
+						}
+					}
 				case "io.ReadFull", "io.ReadAtLeast":
 					n := sym + ".0"
 					s.le("0", n, 0)
@@ -420,6 +455,13 @@ func (tb *TB) buildSystem(facts []Atom, at *ssa.BasicBlock, before ssa.Instructi
 				}
 			case *ssa.Phi:
 				phis = append(phis, c)
+				// a merge of slices that are all cut from fixed-size arrays is no longer than the
+				// largest of them
+				if isSliceType(c) {
+					if L, ok := arrayOriginLen(c, 0); ok {
+						s.le("len("+tb.Term(c).Key()+")", "0", L)
+					}
+				}
 				// monotone counters: edges are constants or phi +/- positive constant
 				up, down, okc := true, true, true
 				var consts []int64
@@ -766,7 +808,13 @@ func (p *Program) BoundsOf(fn *ssa.Function) []*BoundOb {
 					out = append(out, ob)
 				}
 			case *ssa.Panic:
-				out = append(out, &BoundOb{Fn: fn, Instr: in, Kind: "panic", Desc: "panic:" + panicText(x), Detail: "explicit panic"})
+				ob := &BoundOb{Fn: fn, Instr: in, Kind: "panic", Desc: "panic:" + panicText(x), Detail: "explicit panic"}
+				// an assertion that cannot fire: the guards under which it stands contradict what
+				// is known about the values (library contracts, lengths of fixed buffers)
+				if sy := tb.system(in); sy.implied("0", "0", -1) || fmInfeasible(sy.linCons()) {
+					ob.OK, ob.How = true, "unreachable: the guards in force contradict the known bounds of the values"
+				}
+				out = append(out, ob)
 			}
 		}
 	}
@@ -967,4 +1015,41 @@ func (tb *TB) pathFeasible(pa *Path) bool {
 		}
 	}
 	return true
+}
+
+// arrayOriginLen: every value the slice v can be is a slice of a fixed-size array (directly, or
+// through reslicing and merges); the result is the largest such array length, a bound on len(v)
+// and cap(v).
+func arrayOriginLen(v ssa.Value, depth int) (int64, bool) {
+	if depth > 6 {
+		return 0, false
+	}
+	switch x := v.(type) {
+	case *ssa.Slice:
+		t := x.X.Type().Underlying()
+		if p, ok := t.(*types.Pointer); ok {
+			if a, ok := p.Elem().Underlying().(*types.Array); ok {
+				return a.Len(), true
+			}
+		}
+		return arrayOriginLen(x.X, depth+1)
+	case *ssa.Phi:
+		var mx int64
+		for _, e := range x.Edges {
+			if e == ssa.Value(x) {
+				continue
+			}
+			l, ok := arrayOriginLen(e, depth+1)
+			if !ok {
+				return 0, false
+			}
+			if l > mx {
+				mx = l
+			}
+		}
+		return mx, true
+	case *ssa.ChangeType:
+		return arrayOriginLen(x.X, depth+1)
+	}
+	return 0, false
 }
